@@ -26,7 +26,7 @@ import random
 from prosemirror.model import Fragment, Slice
 from prosemirror.transform import Transform
 
-from .. import core, gen, ops, rangeplan, schemas
+from .. import core, delguards, gen, ops, rangeplan, schemas
 from ..codec import doc_tokens, frag_tokens
 from ..core import outcome
 from ..validator import validator
@@ -66,11 +66,27 @@ def run(ctx):
     core.lean_phase(ctx)
     rng = ctx.rng
     reqs, metas = [], []
+    del_guards = {}      # schema name -> the driver's evaluation of the schema guards of `delete_applies`
 
     def flush():
         outs = ctx.driver.run(reqs) if reqs else []
         for req, (op, replay, exp), out in zip(reqs, metas, outs):
             ctx.count("model_requests")
+            if op in delguards.ANSWER:
+                # the hypotheses of `delete_applies` / `delete_never_raises` (lean/PM/DeleteGuards.lean, Props/C11.lean): exact,
+                # and the statement itself relationally (hypotheses true => the real operation returned)
+                if delguards.answer(op, out) != exp:
+                    ctx.mismatch(op, replay, exp, out)
+                if op == "deleteGuards":
+                    if isinstance(out.get("ok"), dict):
+                        del_guards[replay["schema"]] = out["ok"]
+                elif op == "trivialApplies":
+                    delguards.check_trivial_applies(ctx, replay, out)
+                elif op == "directApplies":
+                    delguards.check_direct_applies(ctx, replay, out)
+                else:
+                    delguards.check_delete_applies(ctx, replay, out)
+                continue
             if op in rangeplan.EXACT_OPS:
                 # planning code modelled in lean/PM/RangeOps.lean, Fitter.lean, FillOrder.lean: exact, including "the code raises"
                 if rangeplan.answer(out) != exp:
@@ -78,6 +94,9 @@ def run(ctx):
                 if op == "fitGuards":
                     # relational: the model's guards true => the real replace_step neither raised nor hung
                     rangeplan.check_fit_guards(ctx, replay, out)
+                if op == "fitRaise":
+                    # relational: hypotheses of fit_no_raise / fit_no_raise_while true => the real replace_step returned
+                    rangeplan.check_fit_raise(ctx, replay, out)
                 if op == "fitEmit":
                     # relational: start half always, StepWF under the hypotheses of the theorems, payload of the real step valid
                     rangeplan.check_fit_emit(ctx, replay, out)
@@ -89,7 +108,15 @@ def run(ctx):
     # the divergence example of Props/C11.lean on the real code (the loop of Fitter.fit does not end) and in the model (outOfFuel)
     rangeplan.tie_divergence_example(ctx, reqs, metas)
     fam = schemas.family()
+    # the schema guards of `delete_applies` on every named schema (family and extra), computed on the real Schema objects and
+    # by the driver on the compiled tables; the counterexample schema of `joinCompat_needed` on the real code
+    for info_g in fam + schemas.extra():
+        ctx.driver.add_schema(info_g)
+        delguards.tie_schema_guards(ctx, info_g, reqs, metas)
+    delguards.tie_join_counterexample(ctx, reqs, metas)
+    flush()
     rng_rr = random.Random(ctx.seed * 7919 + 11)     # the replace_range ties draw from their own stream
+    rng_fr = random.Random(ctx.seed * 6151 + 5)      # … and the fit_no_raise tie on random schemas
     # replace_range on the aimed schemas with `definingAsContext` / `definingForContent` (harness/schemas.py), and
     # replace_range_with at block boundaries (where insert_point moves the target)
     for info in [schemas.by_name("ctx-flags-a"), schemas.by_name("ctx-flags-b")] + [fam[k] for k in (1, 5, 6)]:
@@ -112,8 +139,12 @@ def run(ctx):
     for si in range(ctx.budget(18, 80)):
         if len(reqs) >= 15000:
             flush()     # keep memory bounded in long runs
-        bundled = si < len(fam) or rng.random() < 0.6
-        info = fam[si % len(fam)] if bundled else schemas.random_schema(rng)
+        # the kernel-checked family first, then the further strict variants (harness/schemas.py: strict()), then a mix
+        pool = fam + schemas.strict()
+        bundled = si < len(pool) or rng.random() < 0.6
+        info = pool[si % len(pool)] if bundled else schemas.random_schema(rng)
+        if bundled and si % len(pool) >= len(fam):
+            ctx.count("strict-variant-schemas")
         schema = info.schema
         val = validator(schema)
         ctx.driver.add_schema(info)
@@ -155,11 +186,27 @@ def run(ctx):
                     rst = rangeplan.tie_replace_step(ctx, info, d, f, t, req, reqs, metas)
                     # the guards of the totality theorems (Props/C11.lean), exactly, and: guard true => it did not raise
                     rangeplan.tie_fit_guards(ctx, info, d, f, t, req, rst, reqs, metas)
+                    # the guards of fit_no_raise (lean/PM/FitRaiseGuard.lean), exactly, and: hypotheses true => it returned
+                    rangeplan.tie_fit_raise(ctx, info, d, f, t, req, rst, reqs, metas)
                     # well-formedness of the emitted step (StepWF / aroundShape), exactly, and the payload of the real step
                     rangeplan.tie_fit_emit(ctx, info, val, d, f, t, req, reqs, metas)
+                    if not (f == t and not req.size):
+                        # `trivialFit_replace_applies`: a closed slice that fits trivially applies (hypotheses exactly)
+                        delguards.tie_trivial_applies(ctx, info, del_guards.get(info.name), d, f, t, req, reqs, metas)
+                        # `replace_applies_direct`: a closed slice the node `from` is in accepts as it stands — every
+                        # emitted step applies (hypotheses exactly, the whole operation's answer class exactly)
+                        delguards.tie_direct_applies(ctx, info, del_guards.get(info.name), d, f, t, req, reqs, metas)
                     if name in ("delete_range", "delete"):
                         # delete_range as a whole (widening + Fitter): the recorded step, exactly
                         rangeplan.tie_delete_range_step(ctx, info, d, f, t, reqs, metas)
+                        # `delete_never_raises` / `deleteRange_never_raises`: hypotheses exactly, the statement relationally
+                        delguards.tie_delete_applies(ctx, info, del_guards.get(info.name), d, f, t, name, reqs, metas)
+                if not bundled and rng_fr.random() < 0.5:
+                    # random schemas: the guards of fit_no_raise (exact) and "hypotheses true => replace_step returned"
+                    # (relational), on a private random stream; here the stale `open_start` of `place_nodes` does occur
+                    rst_ = outcome(lambda: rangeplan.replace_step(d, f, t, req))[0]
+                    rangeplan.tie_fit_raise(ctx, info, d, f, t, req, rst_, reqs, metas)
+                    ctx.count("fit raise: random-schema requests")
                 tr = Transform(d)
                 st, val_, added = ops.run_op(tr, thunk)
                 replay = {"schema": info.name, "doc": d.to_json(), **ops.describe(name, args)}
